@@ -16,7 +16,7 @@ const (
 
 func init() {
 	Registry["C04"] = Spec{
-		Pkgs: map[string][]string{"v2": {"astvalidation", "astvisitor"}, "execution": {"engine", "graphql"}},
+		Pkgs: map[string][]string{"v2": {"astvalidation", "astvisitor", "ast"}, "execution": {"engine", "graphql"}},
 		Run:  runC04,
 		Explanation: "Decides the structural half of 'the admission sequence accepts exactly the spec-valid operations': every operation rule the package offers is registered in DefaultOperationValidator (or is one of four frozen, reasoned exceptions); every callback a validation visitor implements is registered with the walker (no dead rule code) and per-walk state of reusable rule visitors is reset when a document is entered; " +
 			"ExecutionEngine.Execute reaches planning only through the success edges of normalization (when needed), then of ValidateForSchema (err == nil ∧ Valid), and reaches the resolver only when planning reported no error; ValidateForSchema validates with DefaultOperationValidator and the validator reports Invalid whenever the report has errors. " +
@@ -50,6 +50,8 @@ func init() {
 				Old: "typeName := f.definition.NodeNameBytes(f.EnclosingTypeDefinition)", New: "typeName := f.operation.NodeNameBytes(f.EnclosingTypeDefinition)"},
 			{Name: "union name resolved in the operation document", File: "v2/pkg/astvalidation/operation_rule_validate_field_selections.go", Rule: "C04-R6", Key: "fieldDefined.ValidateUnionField/Document.NodeNameBytes",
 				Old: "unionName := f.definition.NodeNameBytes(enclosingTypeDefinition)", New: "unionName := f.operation.NodeNameBytes(enclosingTypeDefinition)"},
+			{Name: "Int values compare equal regardless of their sign (seeded change C04-21)", File: "v2/pkg/ast/ast_val_int_value.go", Rule: "C04-R7", Key: "copy-equal/IntValue.Negative",
+				Old: "\treturn d.IntValueIsNegative(left) == d.IntValueIsNegative(right) &&\n\t\tbytes.Equal(d.IntValueRaw(left), d.IntValueRaw(right))", New: "\treturn bytes.Equal(d.IntValueRaw(left), d.IntValueRaw(right))"},
 			{Name: "ValidateForSchema built from a hand-picked rule list", File: gqlValidateGo, Rule: "C04-R4", Key: "ValidateForSchema",
 				Old: "\tvalidator := astvalidation.DefaultOperationValidator(options...)\n", New: "\tvalidator := astvalidation.NewOperationValidator([]astvalidation.Rule{astvalidation.FieldSelections(), astvalidation.Values()})\n\t_ = options\n"},
 		},
@@ -162,6 +164,9 @@ func runC04(r *fw.Run) {
 
 	r.Rule("C04-R6", "in every validation rule a node is looked up only in the document it came from: a definition node (Walker.EnclosingTypeDefinition, TypeDefinitions, a lookup in the definition) is never handed to a method of the operation document, nor the other way round")
 	documentProvenance(r, "C04-R6", []string{"astvalidation"}, 19)
+
+	r.Rule("C04-R7", "the value/argument/directive equalities that field-merge validation relies on read every field the matching Copy function treats as content of the node (positions are not content; four frozen, reasoned exceptions)")
+	copyEqualAgreement(r, "C04-R7", 12)
 
 	// ---- R3 admission sequence --------------------------------------------------------------------
 	r.Rule("C04-R3", "ExecutionEngine.Execute plans only after normalization succeeded (when needed) and then ValidateForSchema returned err == nil ∧ Valid; it resolves only when planning reported no error")
